@@ -239,6 +239,17 @@ def rule_r1(ctx, rid="C17.R1"):
         else:
             ctx.r.ok(rid, "%s hands `%s` on to the migrating constructor (skipped only when it is None)" % (ki.qual, src), ki.loc())
     ctx.r.floor(rid, nsub, 2, "constructors of concrete file-based representations")
+    # a peek / consume asks the file for exactly what the caller asked for: get(n) reads n bytes (or everything for n < 0),
+    # not a capped or rounded amount - "at least as many bytes as requested, or everything queued"
+    fg = p.func("buffers.FileBasedBuffer.get")
+    nb = fg.params[1]
+    reads = [c for c in ast.walk(fg.node) if isinstance(c, ast.Call) and isinstance(c.func, ast.Attribute) and c.func.attr == "read"]
+    ctx.r.floor(rid, len(reads), 2, "read calls in FileBasedBuffer.get")
+    for c in reads:
+        if not c.args or (len(c.args) == 1 and isinstance(c.args[0], ast.Name) and c.args[0].id == nb and not c.keywords):
+            ctx.r.ok(rid, "get() reads %s" % ("everything" if not c.args else "exactly the requested number of bytes"), fg.loc(c))
+        else:
+            ctx.r.violation(rid, key_of(fg, None, "get-read-amount"), "FileBasedBuffer.get reads `%s` instead of the %s bytes asked for: a peek can return fewer bytes than requested although more are queued" % (norm(c)[:50], nb), fg.loc(c))
     ctx.r.note("c17_paths", n_paths)
     ctx.r.floor(rid, n_paths, 6, "symbolic paths through FileBasedBuffer methods")
 
